@@ -651,6 +651,7 @@ class Client:
         self.site = "-"
         self.func = "-"
         self.shared = False
+        self.shared_regs = {}  # op index -> share name: registers holding an object other clients hold too
 
 
 class Sched:
@@ -975,8 +976,20 @@ def exec_op(sim, cl, i, traced):
     res = MISSING
     exc = None
     argobj = MISSING
+    adopted = None
+    sh = base.get("share")
+    if sh is not None and cl.name != "w" and sh in sim.shared and sim.shared[sh][1] == key:
+        adopted = sim.shared[sh]
+    if "arg" in base and base["arg"] in cl.shared_regs:
+        rec["sharg"] = cl.shared_regs[base["arg"]]
     try:
-        if bkind == "read":
+        if adopted is not None:
+            # the very object the warm-up made: several clients now hold one graph
+            res = adopted[0]
+            if "arg" in base and bkind in ("canon",):
+                argobj = _arg_value(cl, base["arg"])
+            rec["adopted"] = sh
+        elif bkind == "read":
             text = spec["texts"][base["text"]] if "text" in base else _arg_value(cl, base["arg"])
             if text is MISSING:
                 rec["st"] = "skipped"
@@ -1098,7 +1111,7 @@ def exec_op(sim, cl, i, traced):
                 rec["hdr"] = enc["hdr"]
                 if enc.get("coords") is not None:
                     rec["coords"] = enc["coords"]
-            rec["dg"] = digest(enc)
+            rec["dg"] = digest(enc) if adopted is None else adopted[3]  # as returned, before the caller set tracer positions
             if spec.get("full") or (rtype == model.STRING and len(res) < 400):
                 rec["enc"] = enc
             if bkind == "parse":
@@ -1113,7 +1126,7 @@ def exec_op(sim, cl, i, traced):
         ai = base["arg"]
         snap = cl.snaps[ai]
         if snap is not None:
-            d = snap_diff(snap, argobj, tolerate_new_node_keys=(bkind == "serialize"))
+            d = snap_diff(snap, argobj, tolerate_new_node_keys=(bkind == "serialize" or ai in cl.shared_regs))
             if d:
                 if bkind in ("canon", "serialize"):
                     sim.violation("C12", "argument_mutated", cl, i, bkind, key, d)
@@ -1128,7 +1141,7 @@ def exec_op(sim, cl, i, traced):
             if id(res) in sim.dropped_ids:
                 sim.probe("id_of_dropped_graph_reused")
                 sim.dropped_ids.discard(id(res))
-            if bkind in model.SOURCE_OPS:
+            if bkind in model.SOURCE_OPS and adopted is None:
                 _set_tracer(res)
             if bkind == "canon":
                 d = check_canon(argobj, res)
@@ -1142,7 +1155,13 @@ def exec_op(sim, cl, i, traced):
                     sim.violation("C16", "not_a_faithful_copy", cl, i, bkind, key, d)
                 if res is argobj:
                     sim.violation("C16", "result_is_argument", cl, i, bkind, key, "permute returned its argument object")
-            cl.snaps[i] = snapshot(res)
+            if adopted is not None:
+                cl.snaps[i] = adopted[2]
+                cl.shared_regs[i] = sh
+            else:
+                cl.snaps[i] = snapshot(res)
+                if sh is not None and cl.name == "w":
+                    sim.shared[sh] = (res, key, cl.snaps[i], rec["dg"])
         cl.vals[i] = res
         if kind == "again":
             first = cl.recs[bi]
@@ -1319,6 +1338,7 @@ def run_spec(spec):
     sim = _Sim(spec)
     CURRENT = sim
     sim.ok_parses = 0
+    sim.shared = {}  # share name -> (object, key, snapshot): objects created by the warm-up and handed to every client
     orig_import = builtins.__import__
     wcl = None
     clients = []
@@ -1425,6 +1445,15 @@ def run_spec(spec):
             for b in parses:
                 if a["c"] < b["c"] and a["key"] == b["key"] and a["s0"] < b["s1"] and b["s0"] < a["s1"]:
                     sim.probe("same_string_parsed_concurrently_cold")
+    if sim.shared and len(clients) > 1:
+        sh_ops = [r for r in ops if r.get("sharg") and r["c"] != "w" and r["st"] in ("ok", "exc", "faulted")]
+        hit = set()
+        for a in sh_ops:
+            for b in sh_ops:
+                if a["c"] < b["c"] and a["sharg"] == b["sharg"] and a["s0"] < b["s1"] and b["s0"] < a["s1"]:
+                    hit.add("+".join(sorted((a["op"], b["op"]))))
+        for h in sorted(hit):
+            sim.probe("shared_object_overlap:" + h)
     n_ret = sum(1 for r in ops if r["st"] in ("ok", "exc"))
     n_lib = sum(1 for r in ops if r["st"] in ("ok", "exc", "faulted"))
     return {
